@@ -1283,6 +1283,63 @@ func (g *Gen) opNewBatch() bool {
 	return true
 }
 
+// opDupOmit: an archetype with two relation components A and B.  A first creation makes the table
+// (A→p, B→x) exist; a second one names A→p TWICE and gives no target for B: the count of relations is
+// right, every named relation matches the existing table — and B's target would be whatever that table
+// has (defect D26).  Through the ID-based and the typed path; also as an addition to an entity that has
+// neither.  Must be rejected without effect.
+func (g *Gen) opDupOmit() bool {
+	var rels, plain []int
+	for _, n := range g.regNames() {
+		if g.isRel(n) {
+			rels = append(rels, n)
+		} else {
+			plain = append(plain, n)
+		}
+	}
+	alive := g.aliveLabels()
+	if len(rels) < 2 || len(alive) == 0 {
+		return false
+	}
+	g.drainQueries()
+	perm := g.rng.Perm(len(rels))
+	cs := g.tupleOrder([]int{rels[perm[0]], rels[perm[1]]})
+	p, x := alive[g.pick(len(alive))], alive[g.pick(len(alive))]
+	l := g.nextEnt
+	g.nextEnt += 2
+	g.ents = append(g.ents, l, l+1)
+	g.emit(fmt.Sprintf("new e%d %s c%d>e%d c%d>e%d", l, g.path(cs, true), cs[0], p, cs[1], x))
+	dup, omit := cs[0], cs[1]
+	tp := p
+	if g.chance(0.5) {
+		dup, omit, tp = cs[1], cs[0], x
+	}
+	// the components stay in the order that has a typed instantiation
+	toks := func() string {
+		var parts []string
+		for _, n := range cs {
+			if n == dup {
+				parts = append(parts, fmt.Sprintf("c%d>e%d", n, tp))
+			} else {
+				parts = append(parts, fmt.Sprintf("c%d", n))
+			}
+		}
+		_ = omit
+		return strings.Join(parts, " ") + fmt.Sprintf(" r%d>e%d", dup, tp)
+	}
+	g.emit(fmt.Sprintf("new e%d %s %s", l+1, g.path(cs, true), toks()))
+	if len(plain) > 0 && g.chance(0.6) {
+		pc := plain[g.pick(len(plain))]
+		a := g.nextEnt
+		g.nextEnt++
+		g.ents = append(g.ents, a)
+		g.emit(fmt.Sprintf("new e%d u c%d:%d", a, pc, g.val()))
+		// the addition of both relation components to it: again A twice, B without a target
+		g.emit(fmt.Sprintf("add e%d %s %s", a, g.path(cs, true), toks()))
+	}
+	return true
+}
+
 // opBatchTarget: a batch (often EMPTY) that names a fresh entity as relation target, the removal of that
 // target, and the removed entity named as target again through the ID-based API, which must be rejected
 // (C10) — the bookkeeping for a target must not depend on how many entities the batch created (C04).
@@ -2109,6 +2166,7 @@ func (g *Gen) Run(nseq, nops int) {
 			{"getrel", 2, g.opGetRel},
 			{"bigtable", 1, g.opBigTable},
 			{"batchtarget", 1, g.opBatchTarget},
+			{"dupomit", 1, g.opDupOmit},
 			{"lockexh", 1, g.opLockExhaustion},
 		}
 		total := 0
